@@ -21,4 +21,8 @@ CASES = [
     dict(expect="fire", desc="seed C44-r2/2: publish_value builds its subject through a factory call in the operator factory body", names="E1-L0-rx-object", edits=[dict(file="reactivex/operators/_publishvalue.py",
          old="    def publish_value(source: Observable[_T1]) -> ConnectableObservable[_T1]:\n        subject = BehaviorSubject(initial_value)\n        return source.pipe(ops.multicast(subject))\n\n    return publish_value",
          new="    def make() -> BehaviorSubject[_T1]:\n        return BehaviorSubject(initial_value)\n\n    return ops.multicast(make())")]),
+    dict(expect="fire", desc="seed C44-r3/1: compose builds a one-shot filter() over its operators in the factory", names="E1-L0-state", edits=[dict(file="reactivex/pipe.py",
+         old="    def _compose(source: Any) -> Any:\n        return reduce(lambda obs, op: op(obs), operators, source)", new="    fns = filter(None, operators)\n\n    def _compose(source: Any) -> Any:\n        return reduce(lambda obs, op: op(obs), fns, source)")]),
+    dict(expect="silent", desc="compose: operators filtered into a tuple in the factory", edits=[dict(file="reactivex/pipe.py",
+         old="    def _compose(source: Any) -> Any:\n        return reduce(lambda obs, op: op(obs), operators, source)", new="    fns = tuple(op for op in operators if op is not None)\n\n    def _compose(source: Any) -> Any:\n        return reduce(lambda obs, op: op(obs), fns, source)")]),
 ]
